@@ -114,7 +114,9 @@ def _after(ctx, result, exc):
         return
     ev = evse.ev
     if accepted:
-        if evse.current_pilot != pilot:
+        cp_ = evse.current_pilot
+        # stored as given, or snapped to the allowable value it was accepted for (within the acceptance tolerance)
+        if not (cp_ == pilot or abs(float(cp_) - pf) <= 1e-3 * (1 + 1e-9)):
             obs.violate("accepted_pilot_not_stored", f"current_pilot {evse.current_pilot!r} after accepting {pf!r}", **wit)
     else:
         now = (evse.current_pilot, None if ev is None else ev.energy_delivered,
@@ -270,6 +272,10 @@ def _run_direct(case, obs):
             evse.set_pilot(p, rng.choice([120, 208, 240]), rng.choice([1, 5, 15]))
         except InvalidRateError:
             pass
+        except Exception:
+            if math.isfinite(float(p)):
+                raise
+            obs.ev("non_finite_pilots_refused_with_other_error")  # NaN / inf turned away by some other validation: a rejection
     CUR["deep"] = False
     obs.evals = case["n"]
     if obs.events["accepted"] > acc0 and obs.events["rejected"] > rej0 and near > 0:
